@@ -253,3 +253,39 @@ def block_reaches(facts, fn, bb, target):
     if p == target:
         return True
     return p in facts.fns and is_new_fn(p) and reaches_via_new(facts, facts.fns[p], target)
+
+
+def roots_of(facts, fname):
+    """The known functions on whose behalf code in `fname` runs: itself if it is in the frozen list,
+    else the known functions that reach it through new helpers / closures."""
+    if not is_new_fn(fname):
+        return {fname}
+    return known_callers(facts, fname)
+
+
+def result_outcome(lf, callterm):
+    """'ok' / 'err' / None: what this path established about the Result returned by the call `callterm`
+    (through `?`, match / if let, is_ok() / is_err())."""
+    want = norm(callterm)
+    out = None
+    for (t, c, _b) in lf.conds:
+        neg = False
+        x = t
+        while x[0] == "un" and x[1] == "Not":
+            x, neg = look(x[2]), not neg
+        if x[0] == "discr":
+            y = look(x[1])
+            if is_call(y, "branch") and y[2]:
+                y = look(y[2][0])
+            if norm(y) == want:
+                if c == ("eq", 0) or (c[0] == "ne" and 1 in c[1] and 0 not in c[1]):
+                    out = "ok"
+                elif c == ("eq", 1) or (c[0] == "ne" and 0 in c[1] and 1 not in c[1]):
+                    out = "err"
+        elif is_call(x, "is_err", "is_ok") and x[2] and norm(look(x[2][0])) == want:
+            tv = truth(c)
+            if tv is not None:
+                if neg:
+                    tv = not tv
+                out = ("err" if tv else "ok") if is_call(x, "is_err") else ("ok" if tv else "err")
+    return out
